@@ -19,7 +19,8 @@ func init() {
 		Explanation: "R1 map-iteration-order lint over decodeConfigFile, the one loop that extends the map it ranges over: (a) on every path through one iteration the (decoded) entry is stored back under the key being visited before the next iteration; (b) the list of URL keys an entry was derived from is sorted after every append, before the entry is stored; (c) the store under the derived host key happens only when no entry exists for it or the existing one was itself derived (an explicit entry is never overwritten); " +
 			"R2 precedence and determinism of EntryForRegistry: the helper name is the per-host helper when one is configured and the default store otherwise; the auths table is consulted only on paths where no helper is configured, or the helper failed, is the default one (not per-host) and the failure is ErrHelperNotFound; credentials read from the table are returned only under len(derivedFrom) <= 1; and the lookup writes nothing to the ConfigFile (no stores, no Store/Delete calls on its fields), so results cannot depend on the order of lookups. " +
 			"R3 the byte count of base64 Decode into a caller-sized buffer is used. " +
-			"R4 the auth field is decoded with base64.StdEncoding.",
+			"R4 the auth field is decoded with base64.StdEncoding. " +
+			"R5 decodeAuth never returns one element of an unlimited split on ':' (the password is everything after the first colon).",
 		NotDecided: "exactness of base64 decoding of the auth field, and the text of the error when several entries are malformed (it can depend on iteration order; outside the property's statement), are not decided.",
 		Technique:  "static analysis: must-pass-through on the loop body, dominance, disjunctive path facts, write-effect scan",
 	})
@@ -28,6 +29,7 @@ func init() {
 func runC19(c *core.Ctx) {
 	base64CountUsed(c, "C19.R3")
 	authDecodedWithStdAlphabet(c, "C19.R4")
+	passwordIsEverythingAfterTheFirstColon(c, "C19.R5")
 	dec := c.P.Func("ociauth", "decodeConfigFile")
 	if dec == nil {
 		c.Fail("C19.R1", "anchor/ociauth.decodeConfigFile", 0, "ociauth.decodeConfigFile not found")
